@@ -85,17 +85,8 @@ def normalise(raw_path, out_path):
 
 
 # ----------------------------------------------------------------------------------------------------------
-# Trace validation: one TLC pass reports every rejected execution (REJ lines); an invariant violation cuts the
-# execution it happened in and validation is repeated on the rest.
+# Trace validation: one TLC pass reports every rejected event of a file as <<"REJ", line, event, {reasons}>>.
 # ----------------------------------------------------------------------------------------------------------
-def parse_rej(out):
-    rej = []
-    for v in vlib.parse_beh(out, tag="REJ"):
-        # v = [line, event, {reasons}]  - the set prints as {"a", "b"}; parse_beh fails on sets -> handled below
-        rej.append(v)
-    return rej
-
-
 def rej_lines(out):
     """<<"REJ", line, "VmRet", {"...", "..."}>> possibly wrapped over several lines"""
     res = []
@@ -106,42 +97,48 @@ def rej_lines(out):
     return res
 
 
-def validate(ctx, norm_path, tag, timeout=1500):
-    """-> list of (lineno (1-based, in norm file), event name, [reasons])"""
+def validate(ctx, norm_path, tag, timeout=2400, strict=False):
+    """-> (number of executions, list of rejected executions {x, fail, env, start, line, event, reasons, records})"""
     recs = vlib.read_ndjson(norm_path)
-    rejected = []
-    offset = 0
-    work = recs
-    for rnd in range(6):
-        p = ctx.path(f"{tag}_v{rnd}.ndjson")
-        vlib.write_ndjson(p, work)
-        r = vlib.run_tlc(ctx, MOD_T, CFG_T, workers=1, timeout=timeout, env={"TRACE": p}, heap="4g", tag=f"{tag}{rnd}")
-        ctx.states += r.distinct
-        ctx.transitions += r.generated
-        mm = re.search(r'<<"MAXL", (\d+), (\d+)>>', r.out)
-        rej = rej_lines(r.out)
-        if r.kind == "ok":
-            if not mm or int(mm.group(1)) != int(mm.group(2)) + 1:
-                raise Broken(f"trace validation {tag}: accepted without consuming the file\n" + r.out[-800:])
-            rejected += [(ln + offset, ev, why) for ln, ev, why in rej]
-            return rejected
-        if r.kind == "violation":
-            st = vlib.parse_state_dump(r.out)
-            l = int(st.get("l", "0") or 0)
-            if l < 2:
-                raise Broken(f"trace validation {tag}: invariant violated at the start\n" + r.out[-1500:])
-            bad = l - 1                         # the event whose effect produced the state
-            rejected += [(ln + offset, ev, why) for ln, ev, why in rej if ln < bad]
-            rejected.append((bad + offset, work[bad - 1].get("e", "?"), [f"state invariant {r.violated} violated"]))
-            # resume after the execution containing `bad`
-            nxt = next((i for i in range(bad, len(work)) if work[i].get("e") == "Reset"), len(work))
-            offset += nxt
-            work = work[nxt:]
-            if not work:
-                return rejected
-            continue
-        raise Broken(f"trace validation {tag} failed to run: kind={r.kind} rc={r.rc}\n" + "\n".join(r.out.splitlines()[-30:]))
-    raise Broken("too many invariant violations in one file")
+    if not recs or recs[-1].get("e") != "Reset" or recs[-1].get("x") != "<eof>":
+        recs.append({"e": "Reset", "x": "<eof>", "page": PAGE})
+        vlib.write_ndjson(norm_path, recs)
+    env = {"TRACE": norm_path}
+    if strict:
+        env["STRICT"] = "1"
+    r = vlib.run_tlc(ctx, MOD_T, CFG_T, workers=1, timeout=timeout, env=env, heap="4g", tag=tag)
+    ctx.states += r.distinct
+    ctx.transitions += r.generated
+    mm = re.search(r'<<"MAXL", (\d+), (\d+)>>', r.out)
+    if strict and r.kind == "error" and "Postcondition" in r.out and mm:
+        return len(recs), [{"line": int(mm.group(1)), "reasons": ["strict mode: stuck"], "x": "?", "event": "?"}]
+    if r.kind != "ok" or not mm or int(mm.group(1)) != int(mm.group(2)) + 1:
+        raise Broken(f"trace validation {tag} failed to run: kind={r.kind} rc={r.rc} violated={r.violated}\n" + "\n".join(r.out.splitlines()[-30:]))
+    starts = [i for i, x in enumerate(recs) if x.get("e") == "Reset"]          # 0-based indices of Reset lines
+    nexec = len(starts) - 1
+    by_exec = {}
+    import bisect
+    for ln, evname, reasons in rej_lines(r.out):
+        idx = ln - 1
+        k = bisect.bisect_right(starts, idx) - 1
+        if recs[idx].get("e") == "Reset":          # invariant of the state the previous execution left
+            k -= 1
+        if k < 0:
+            raise Broken(f"rejection at line {ln} before any execution")
+        d = by_exec.setdefault(k, {"line": ln, "event": evname, "reasons": [], "first": None})
+        if d["first"] is None:
+            d["first"] = recs[idx]
+        for why in reasons:
+            if why not in d["reasons"]:
+                d["reasons"].append(why)
+    out = []
+    for k in sorted(by_exec):
+        d = by_exec[k]
+        head = recs[starts[k]]
+        d.update({"x": head.get("x", "?"), "fail": head.get("fail", []), "env": head.get("env", {}), "sticky": head.get("sticky", False),
+                  "records": recs[starts[k]:starts[k + 1]], "rel": d["line"] - 1 - starts[k]})
+        out.append(d)
+    return nexec, out
 
 
 # ----------------------------------------------------------------------------------------------------------
@@ -243,3 +240,100 @@ def systematic_scripts(quick):
             for env in envs:
                 scripts.append({"x": f"{name}/{env}", "env": ENVS[env], "fail": "each", "errnos": "first" if quick else "all", "ops": ops})
     return scripts
+
+
+def random_scripts(seed, count):
+    rng = random.Random(seed)
+    scripts = []
+    errs = ["ENOMEM", "EINVAL", "EACCES", "EMFILE", "EEXIST", "ENOSYS", "ENOSPC", "EIO", "EAGAIN"]
+    envs = list(ENVS)
+    for i in range(count):
+        ops = []
+        env = rng.choice(envs) if rng.random() < 0.6 else "std"
+        if rng.random() < 0.5:
+            for _ in range(rng.randint(3, 12)):
+                c = rng.random()
+                s = rng.randint(0, 3)
+                if c < 0.25:
+                    ops.append(A(rng.choice([4096, 8192, 65536, 100, 12288]), rng.randint(0, 7), s, sh=rng.random() < 0.2,
+                                 huge=rng.random() < 0.1))
+                elif c < 0.5:
+                    ops.append(D(rng.choice([4096, 16384, 65536]), rng.choice([1, 3, 5, 7, 7, 7]), s, tmp=rng.random() < 0.3))
+                elif c < 0.62:
+                    ops.append(REL(s))
+                elif c < 0.74:
+                    ops.append(RD(s))
+                elif c < 0.86:
+                    ops.append(PROT(s, rng.randint(0, 7), rng.choice([0, 4096]), rng.choice([0, 4096]), view=rng.choice(["rx", "rw"])))
+                else:
+                    ops.append({"op": rng.choice(["info", "lps", "hri"])})
+            ops += [REL(s) for s in range(4)] + [RD(s) for s in range(4)]
+        else:
+            huge = env == "hugesim" and rng.random() < 0.7
+            ops.append(RTNEW(dual=rng.random() < 0.4, multi=rng.random() < 0.3, fill=rng.random() < 0.4, imm=rng.random() < 0.4,
+                             nopad=rng.random() < 0.3, lp=huge or rng.random() < 0.1, alignlp=huge and rng.random() < 0.5,
+                             gran=rng.choice([0, 64, 128, 256, 100]), block=rng.choice([0, 65536, 131072, 1000])))
+            for _ in range(rng.randint(3, 12)):
+                c = rng.random()
+                s = rng.randint(0, 4)
+                if c < 0.5:
+                    ops.append(ADD(s, rng.choice([-1, 0, 1, 1, 2, 3, 5, 7, 7]), rng.randint(1, 1000), rng.choice([0, 0, 100, 700, 5000, 70000])))
+                elif c < 0.8:
+                    ops.append(RREL(s) if rng.random() < 0.9 else RREL(s, bogus=rng.choice(["null", "foreign"])))
+                elif c < 0.9:
+                    ops.append(RESET_S)
+                else:
+                    ops.append(RESET_H)
+            if rng.random() < 0.3:
+                ops += [RREL(s) for s in range(5)]
+            ops.append(DEL)
+        c = rng.random()
+        fail = []
+        if c < 0.6:
+            fail = [[rng.randint(1, 40), rng.choice(errs)]]
+        elif c < 0.8:
+            fail = sorted([[rng.randint(1, 40), rng.choice(errs)] for _ in range(2)])
+        scripts.append({"x": f"rnd{seed}_{i}/{env}", "env": ENVS[env], "fail": fail, "sticky": bool(fail) and rng.random() < 0.2, "ops": ops})
+    return scripts
+
+
+# ----------------------------------------------------------------------------------------------------------
+# Known findings: reason -> key (a rejected execution is a known finding iff all its reasons are listed)
+# ----------------------------------------------------------------------------------------------------------
+REASON_KEYS = {
+    "reset: kFillUnusedMemory, but memory of a kept block was not wiped": "reset-soft:kFillUnusedMemory:kept-block-keeps-old-code",
+}
+
+
+def record_and_validate(ctx, bdir, scripts, tag, timeout=2400):
+    """-> (executions, events, rejected executions)"""
+    sp, raw, norm = ctx.path(f"{tag}_scripts.ndjson"), ctx.path(f"{tag}_raw.ndjson"), ctx.path(f"{tag}_norm.ndjson")
+    tmpd = ctx.path(f"{tag}_tmp")
+    os.makedirs(tmpd, exist_ok=True)
+    vlib.write_ndjson(sp, scripts)
+    vlib.record_trace(ctx, bdir, "virtmem", ["run", sp, raw], raw, timeout=timeout, env={"TMPDIR": tmpd, "VERIF_SEED": ctx.seed})
+    left = os.listdir(tmpd)
+    execs, recs = normalise(raw, norm)
+    n, rej = validate(ctx, norm, tag, timeout=timeout)
+    return n, recs, rej, left
+
+
+def report(ctx, scripts, rej, tag):
+    by_x = {s["x"]: s for s in scripts}
+    nviol = 0
+    for d in rej:
+        keys = [REASON_KEYS.get(w) for w in d["reasons"]]
+        if all(k is not None and k in ctx.known for k in keys):
+            for k in set(keys):
+                ctx.known_finding(k, ctx.known[k])
+            continue
+        nviol += 1
+        if nviol > 12:
+            continue
+        sc = by_x.get(d["x"], {"ops": []})
+        rp = ctx.path(f"{tag}_replay_{nviol}.ndjson")
+        vlib.write_ndjson(rp, [{"x": d["x"], "env": d["env"], "fail": d["fail"], "sticky": d.get("sticky", False), "ops": sc["ops"]}])
+        unknown = [w for w in d["reasons"] if REASON_KEYS.get(w) not in ctx.known]
+        ctx.violation(f"{d['x']} fail={json.dumps(d['fail'])} rejected at event {d['rel']} ({d['event']}): " + "; ".join(unknown[:4]) +
+                      f"   event={json.dumps(d['first'])[:240]}", rp)
+    return nviol
